@@ -157,3 +157,41 @@ def deploy_options(**kw):
         def new(cls, query, hosts_range=None):
             return cls()
     return cli_args.DeployOptions(query=HarnessQuery(), **kw)
+
+
+NOTES = []
+_DP_MODE = {}
+
+
+def diff_and_patch(device, old, new, acl_rules, filter_acl_rules, add_comments, ref_track=None, do_commit=True, rb=None):
+    """annet.api._diff_and_patch - the production composition behind `annet patch` / `annet deploy` - called the way
+    annet's own callers call it.  It is a private function: if a tree gives it another parameter list (a refactoring may
+    pass a context object), the harness cannot know the new shape and runs the same composition from its parts instead
+    (apply_acl on old and new, make_diff with both ACLs, make_pre, patch_from_pre, strip_unchanged); this is noted, never
+    reported as a finding."""
+    import inspect
+    from annet import api
+    fn = api._diff_and_patch
+    mode = _DP_MODE.get(id(fn))
+    if mode is None:
+        try:
+            names = list(inspect.signature(fn).parameters)
+        except (TypeError, ValueError):
+            names = []
+        mode = "classic" if names[:6] == ["device", "old", "new", "acl_rules", "filter_acl_rules", "add_comments"] else "composed"
+        _DP_MODE[id(fn)] = mode
+        if mode == "composed":
+            NOTES.append("annet.api._diff_and_patch has another parameter list in this tree (%s): its composition is run from "
+                         "its parts (apply_acl, make_diff, make_pre, patch_from_pre, strip_unchanged)" % ", ".join(names[:6]))
+    if mode == "classic":
+        return fn(device, old, new, acl_rules, filter_acl_rules, add_comments, ref_track=ref_track, do_commit=do_commit, rb=rb)
+    from annet import patching, rulebook
+    if rb is None:
+        rb = rulebook.get_rulebook(device.hw)
+    if acl_rules is not None:
+        old = patching.apply_acl(old, acl_rules)
+        new = patching.apply_acl(new, acl_rules, with_annotations=add_comments)
+    diff_tree = patching.make_diff(old, new, rb, [acl_rules, filter_acl_rules])
+    pre = patching.make_pre(diff_tree)
+    patch_tree = api.patch_from_pre(pre, device.hw, rb, add_comments, ref_track, do_commit)
+    return (patching.strip_unchanged(diff_tree), patch_tree)
